@@ -262,3 +262,99 @@ def aux_framer_ext(name, kind):
             dict(name=x1, items=recs(x1, ctxs) + [("repeat", 2)]),
             dict(name=x2, items=recs(x2, ctxs) + [("done", "enter", None)])])
     return aux_framer(name, kind)
+
+
+# ------------------------------------------------------------------------------- C11 clocks
+
+DYADIC_TICKS = (0.0625, 0.125, 0.25, 0.5, 1.0)
+DECIMAL_TICKS = (0.1, 0.05, 0.2, 0.3)
+
+
+def fam_clocks(ticks):
+    """flat chains a -> b -> c -> a driven only by elapsed / recurred; also run as an auxiliary."""
+    ctxs = ("enter", "exit")
+    for tick in ticks:
+        Ts = sorted(set([0.0, tick / 2, tick, 1.5 * tick, 2 * tick, 3 * tick, 0.3, 1.0]))
+        Ns = (0, 1, 2, 3, 5)
+        for T in Ts:
+            for N in Ns:
+                chains = {
+                    "cycle": [dict(name="a", items=recs("a", ctxs) + [("timeout", T)]),
+                              dict(name="b", items=recs("b", ctxs) + [("repeat", N)]),
+                              dict(name="c", next="a", items=recs("c", ctxs) + [("go", "next", [("elapsed", ">=", T, False)])])],
+                    "reenter": [dict(name="a", items=recs("a", ctxs) + [("go", "me", [("recurred", ">=", N, False), ("elapsed", "<", 2 * T, False)]), ("timeout", 2 * T)]),
+                                dict(name="b", items=recs("b", ctxs) + [("go", "c", [("elapsed", ">", T, False)]), ("repeat", N + 1)]),
+                                dict(name="c", next="a", items=recs("c", ctxs) + [("timeout", T), ("repeat", N)])],
+                }
+                for cname, frames in chains.items():
+                    if cname == "reenter" and N == 0:
+                        continue   # `go me if recurred >= 0` re-enters every tick: still valid but uninformative
+                    yield ("clocks/%r/%s/T%r/N%d/main" % (tick, cname, T, N),
+                           dict(tick=tick, inits=[], framers=[dict(name="m", schedule="active", frames=frames)]),
+                           dict(tick=tick, T=T, N=N, clocked=("m",)))
+                    main = [dict(name="f0", items=recs("f0", ctxs) + [("aux", "x")])]
+                    yield ("clocks/%r/%s/T%r/N%d/aux" % (tick, cname, T, N),
+                           dict(tick=tick, inits=[], framers=[dict(name="m", schedule="active", frames=main),
+                                                              dict(name="x", schedule="aux", frames=frames)]),
+                           dict(tick=tick, T=T, N=N, clocked=("x",)))
+
+
+# ------------------------------------------------------------------------------- C04 bids and fiats
+
+CONTROLS = ("start", "run", "stop", "abort", "ready")
+
+
+def fam_bids(js=(0, 1, 2, 3)):
+    """controller x issues one or two bids on target y at tick j; all order placements, y active/inactive,
+    y period 0 or 2 ticks; second bid in the same action list / a later context of the same tick / next tick."""
+    tick = 0.125
+    ctxs = ("enter", "exit", "recur")
+    for xo in ("front", "mid", "back"):
+        for yo in ("front", "mid", "back"):
+            for decl in ("xy", "yx"):
+                for ysched in ("active", "inactive"):
+                    for yper in (0.0, 0.25):
+                        for j in js:
+                            for c1 in CONTROLS:
+                                seconds = [None] + [(c2, where) for c2 in CONTROLS for where in ("same", "recur", "nexttick")]
+                                for sec in seconds:
+                                    x0 = dict(name="x0", items=recs("x0", ctxs) + [("go", "next", [("recurred", ">=", j, False)])])
+                                    items = recs("x1", ctxs) + [("bid", "enter", c1, ["y"], None)]
+                                    x2items = recs("x2", ctxs)
+                                    if sec:
+                                        if sec[1] == "same":
+                                            items.append(("bid", "enter", sec[0], ["y"], None))
+                                        elif sec[1] == "recur":
+                                            items.append(("bid", "recur", sec[0], ["y"], None))
+                                        else:
+                                            x2items.append(("bid", "enter", sec[0], ["y"], None))
+                                    items.append(("go", "next", [("recurred", ">=", 1, False)]))
+                                    x = dict(name="x", schedule="active", order=xo,
+                                             frames=[x0, dict(name="x1", items=items), dict(name="x2", items=x2items)])
+                                    y = dict(name="y", schedule=ysched, order=yo, period=yper,
+                                             frames=[dict(name="y0", items=recs("y0", ctxs) + [("go", "next", [("recurred", ">=", 2, False)])]),
+                                                     dict(name="y1", items=recs("y1", ctxs))])
+                                    framers = [x, y] if decl == "xy" else [y, x]
+                                    yield ("bids/%s%s/%s/%s/p%r/j%d/%s/%s" % (xo[0], yo[0], decl, ysched, yper, j, c1, sec),
+                                           dict(tick=tick, inits=[], framers=framers), dict())
+
+
+def fam_fiats(maxlen=3):
+    """controller x issues a sequence of fiats (one per tick, enter context) on slave s; s's first frame guarded by e0."""
+    ctxs = ("enter", "exit", "recur")
+    for guard in (1, 0):
+        for n in range(1, maxlen + 1):
+            for seq in itertools.product(CONTROLS, repeat=n):
+                frames = []
+                for i, kind in enumerate(seq):
+                    nm = "x%d" % i
+                    items = recs(nm, ctxs) + [("fiat", "enter", kind, "s")]
+                    if i + 1 < len(seq):
+                        items.append(("go", "next", []))
+                    frames.append(dict(name=nm, items=items))
+                s = dict(name="s", schedule="slave", frames=[
+                    dict(name="s0", items=[("let", [E0])] + recs("s0", ("benter",) + ctxs) + [("go", "next", [("recurred", ">=", 1, False)])]),
+                    dict(name="s1", items=recs("s1", ctxs))])
+                yield ("fiats/g%d/%s" % (guard, "-".join(seq)),
+                       dict(tick=0.125, inits=[("env.e0", guard), ("env.e1", 0)],
+                            framers=[dict(name="x", schedule="active", frames=frames), s]), dict())
